@@ -13,7 +13,11 @@ RULE = ("for every commit of generated histories (root, ordinary, partial, amend
         "ai_additions=accepted+mixed<=added, per-tool sums = totals. non-trivial = a commit with ai_accepted>0 or an ignored/binary/merge commit; "
         "distinct = (commit kind, #files, #sessions, has-ignored, has-binary) signatures")
 
-IGNORED = ["Cargo.lock", "pkg/yarn.lock", "web/app.min.js", "tests/__snapshots__/a.snap", "vendor/x/lib.c", "api.generated.ts", "go.sum"]
+IGNORED = ["Cargo.lock", "pkg/yarn.lock", "web/app.min.js", "tests/__snapshots__/a.snap", "vendor/x/lib.c", "api.generated.ts", "go.sum",
+           "node_modules/left-pad/index.js", "tests/__snapshots__/util.py", "pkg/vendor/acme/main.rs", "web/node_modules/x/y/style.css"]
+# files ignored because of the DIRECTORY they are in, each with a counted file of the same base name elsewhere in the tree
+TWINS = {"vendor/x/lib.c": "src/lib.c", "node_modules/left-pad/index.js": "src/index.js", "tests/__snapshots__/util.py": "lib/util.py",
+         "pkg/vendor/acme/main.rs": "pkg/src/main.rs", "web/node_modules/x/y/style.css": "web/style.css"}
 
 
 def own_numstat(sc, sha):
@@ -147,8 +151,14 @@ def run_case(case):
         extra = []
         has_ignored = rng.random() < 0.5
         has_binary = rng.random() < 0.3
+        twin_pair = None
         if has_ignored:
             extra = rng.sample(IGNORED, rng.choice([1, 2]))
+            if rng.random() < 0.5:
+                # an ignored directory holds a file with the same base name as a counted file, both changed by the same commits
+                ign = rng.choice(sorted(TWINS))
+                extra = [ign, TWINS[ign]] if rng.random() < 0.5 else [TWINS[ign], ign]
+                twin_pair = (ign, TWINS[ign])
             for f in extra:
                 sc.write(f, [sc.fresh("human", hostile=False) for _ in range(3)])
         if has_binary:
@@ -158,6 +168,10 @@ def run_case(case):
             for _ in range(rng.randrange(1, 5)):
                 pool = files + extra
                 sc.do_edit(f=rng.choice(pool))
+            if twin_pair and rng.random() < 0.7:
+                for f in rng.sample(twin_pair, 2):
+                    sc.do_edit(f=f, kinds=["ins", "ins", "rep", "del"])
+                sc.stats["twin_name_commits"] += 1
             if has_binary and rng.random() < 0.5:
                 sc.w.write_bytes("blob.bin", bytes(rng.randrange(256) for _ in range(200)) + b"\0")
             k = rng.choice(["all", "all", "files", "hunks", "amend", "merge", "squash", "rebase", "override-partial"])
@@ -216,7 +230,7 @@ def run_case(case):
                 if sc.viol:
                     break
         r = C.finish(sc, prof, index, nontrivial=nontrivial)
-        r["sig"] = "%s|%s|ign=%s|bin=%s|%s" % (kinds, sorted(sigs), has_ignored, has_binary, prof["files"])
+        r["sig"] = "%s|%s|ign=%s|bin=%s|twin=%s|%s" % (kinds, sorted(sigs), has_ignored, has_binary, bool(twin_pair), prof["files"])
         return r
     finally:
         sc.destroy()
